@@ -114,7 +114,19 @@ Inductive op :=
 | OAppend (n : nat) (fill : list Z)
 | OClear
 | OPush (t : Z)
-| OWrite (k i : nat) (v : Z).          (* write through the k-th most recent window *)
+| OWrite (k i : nat) (v : Z)           (* write through the k-th most recent window *)
+| OSer (ls : list (Z * list Z)).       (* gopacket.SerializeLayers over layers that prepend their header *)
+
+(* SerializeLayers over abstract serializers: each layer prepends a header; the
+   list is walked in reverse (innermost first) and the type pushed: writer.go:207-218 *)
+Definition ser_layer (b : sbuf) (l : Z * list Z) : sbuf :=
+  push (cwrite_all (prepend b (length (snd l))) 0 0 (snd l)) (fst l).
+Definition serialize_layers (b : sbuf) (ls : list (Z * list Z)) : sbuf :=
+  fold_left ser_layer (rev ls) (clear b).
+(* the harness does not keep the windows SerializeLayers handed to the layers *)
+Definition forget_wins (b : sbuf) : sbuf :=
+  {| arr := arr b; len := len b; start := start b; prepended := prepended b; appended := appended b;
+     layers := layers b; gen := gen b; wins := []; panicked := panicked b |}.
 
 Definition step (b : sbuf) (o : op) : sbuf :=
   match o with
@@ -123,6 +135,7 @@ Definition step (b : sbuf) (o : op) : sbuf :=
   | OClear => clear b
   | OPush t => push b t
   | OWrite k i v => cwrite b k i v
+  | OSer ls => forget_wins (serialize_layers b ls)
   end.
 
 Definition run (p a : nat) (ops : list op) : sbuf := fold_left step ops (new_buf p a).
@@ -198,6 +211,7 @@ Definition tstep (b : sbuf) (t : tape) (o : op) : tape :=
   | OClear => tclear t
   | OPush x => tpush t x
   | OWrite k i v => twrite t (win_live b k) k i v
+  | OSer ls => {| cells := map Some (concat (map snd ls)); tlayers := map fst (rev ls); twins := [] |}
   end.
 
 Definition op_wb (t : tape) (o : op) : bool :=
@@ -220,9 +234,3 @@ Fixpoint agree (bs : list Z) (cs : list (option Z)) : bool :=
   | _, _ => false
   end.
 
-(* SerializeLayers over abstract serializers: each layer prepends a header; the
-   list is walked in reverse (innermost first) and the type pushed: writer.go:207-218 *)
-Definition ser_layer (b : sbuf) (l : Z * list Z) : sbuf :=
-  push (cwrite_all (prepend b (length (snd l))) 0 0 (snd l)) (fst l).
-Definition serialize_layers (b : sbuf) (ls : list (Z * list Z)) : sbuf :=
-  fold_left ser_layer (rev ls) (clear b).
